@@ -429,7 +429,7 @@ impl Container for DynamicContainer {
         Ok(())
     }
 
-    async fn read(&self, key: &[u8; 16], _offset: u64, _len: u32, buf: &mut [u8]) -> Result<usize> {
+    async fn read(&self, key: &[u8; 16], offset: u64, len: u32, buf: &mut [u8]) -> Result<usize> {
         if !self.access_mode.can_read() {
             return Err(StorageError::AccessDenied(
                 "container has no read access".to_string(),
@@ -494,7 +494,8 @@ impl Container for DynamicContainer {
             lru.write().touch(&ekey_9);
         }
 
-        // Copy to output buffer
+        // Copy the requested range to the output buffer
+        let data = crate::container::byte_range(&data, offset, len);
         let copy_len = data.len().min(buf.len());
         buf[..copy_len].copy_from_slice(&data[..copy_len]);
 
